@@ -219,8 +219,25 @@ impl<'tcx> Cx<'tcx> {
                 if let Some(d) = a.doc_str() { docs.push_str(d.as_str()); docs.push('\n'); }
             }
         }
-        let _ = write!(out, r#"{{"id":{},"kind":"{:?}","vis":{},"span":{},"expn":{},"argc":{},"names":[{}],"docs":{},"locals":["#,
-            esc(&name), kind, esc(&vis), esc(&self.span(body.span)), body.span.from_expansion(), body.arg_count, names.join(","), esc(&docs));
+        // type parameters in declaration order (parents first), as the resolved callee's `tyargs` list them
+        let mut gens: Vec<String> = Vec::new();
+        {
+            let mut chain = Vec::new();
+            let mut cur = Some(tcx.generics_of(did));
+            while let Some(g) = cur {
+                chain.push(g);
+                cur = g.parent.map(|p| tcx.generics_of(p));
+            }
+            for g in chain.iter().rev() {
+                for p in g.own_params.iter() {
+                    if matches!(p.kind, ty::GenericParamDefKind::Type { .. }) {
+                        gens.push(esc(p.name.as_str()));
+                    }
+                }
+            }
+        }
+        let _ = write!(out, r#"{{"id":{},"kind":"{:?}","vis":{},"span":{},"expn":{},"argc":{},"names":[{}],"generics":[{}],"docs":{},"locals":["#,
+            esc(&name), kind, esc(&vis), esc(&self.span(body.span)), body.span.from_expansion(), body.arg_count, names.join(","), gens.join(","), esc(&docs));
         for (i, l) in body.local_decls.iter().enumerate() {
             if i > 0 { out.push(','); }
             out.push_str(&self.ty(l.ty));
